@@ -4,7 +4,8 @@
    Model/Collator.v; readable specification in Spec/OrderSpec.v. *)
 From Coq Require Import List Sorting Permutation ZArith String Bool Lia Arith.
 From CC Require Import Base.SortX Spec.OrderSpec Model.Collator
-  Proofs.OrderCollate Proofs.OrderExplicit Proofs.OrderIds Proofs.OrderVisible Proofs.OrderRender.
+  Proofs.OrderCollate Proofs.OrderExplicit Proofs.OrderIds Proofs.OrderVisible Proofs.OrderRender
+  Proofs.OrderCrosswalk.
 Import ListNotations.
 Local Open Scope nat_scope.
 
@@ -83,13 +84,46 @@ Proof. exact (with_ids_given fv ids ds k d0 z). Qed.
 Print Assumptions C07_ids_given.
 
 (*CANONICAL*)
-(* ... but not in general: with anchors "Top" / "2" the code's numbering differs from the
-   rank in payload display order (known finding C07-crosswalk-raw-anchors). *)
-Theorem C07_ids_view_refuted :
-  exists ids ds, NoDup ids /\
-    map (fun p => Some (fst p)) (with_ids true ids ds) <> spec_ids_of true ids ds.
-Proof. exact ids_view_refuted. Qed.
-Print Assumptions C07_ids_view_refuted.
+(* Defined on the variable (view): an insertion without an id is numbered by its 1-based rank
+   among the subtotals of the specification's payload display order ([anchored_order] over the
+   valid elements in payload order, anchors read with [spec_place]: "Top", "BOTTOM", "3", " 3",
+   null, stale ids ... as the display reads them); an insertion with an id keeps it.  For EVERY
+   list of (distinct) int element ids - the ids of a categorical dimension, the only dimensions
+   that have subtotals - and EVERY list of insertion dicts.  (Repaired defect
+   C07-crosswalk-raw-anchors, 5a1cca2c: _position_crosswalk ranked the RAW anchors, so that "Top",
+   "3" ... counted as bottom; this statement was refuted by a witness before.)
+   [int_ids] is needed: with a string element id "x" the code files the anchor "x" after that
+   element whereas the display raises ValueError and the specification says bottom. *)
+Theorem C07_ids_view ids ds :
+  NoDup ids -> int_ids ids ->
+  map (fun p => Some (fst p)) (with_ids true ids ds) = spec_ids_of true ids ds.
+Proof. exact (ids_view ids ds). Qed.
+Print Assumptions C07_ids_view.
+
+(* the same read rank by rank *)
+Theorem C07_ids_view_rank ids ds k d0 :
+  NoDup ids -> int_ids ids -> k < List.length ds -> i_id (nth k ds d0) = None ->
+  rank_in_order (List.length ds) k
+                (anchored_order (payload_base ids)
+                                (combine (neg_idxs (List.length ds)) (spec_places ids ds)))
+  = Some (nth k (map fst (with_ids true ids ds)) 0%Z).
+Proof. exact (ids_view_rank ids ds k d0). Qed.
+Print Assumptions C07_ids_view_rank.
+
+(* the former witness: anchors "Top", 3, "2" over the ids 1 2 3 (the code used to number them
+   2, 1, 3) are now numbered as the specification says: 1, 3, 2 - display order
+   "Top"(-3) 1 2 "2"(-1) 3 3(-2); also shows that the hypotheses of C07_ids_view are inhabited *)
+Theorem C07_ids_view_former_witness :
+  let ids := [IInt 1%Z; IInt 2%Z; IInt 3%Z] in
+  let ds := [mkIns None (IStr "Top") true false [IInt 1%Z];
+             mkIns None (IInt 3%Z) true false [IInt 1%Z];
+             mkIns None (IStr "2") true false [IInt 1%Z]] in
+  NoDup ids /\ int_ids ids /\
+  map fst (with_ids true ids ds) = [1; 3; 2]%Z /\
+  spec_ids_of true ids ds = [Some 1; Some 3; Some 2]%Z /\
+  anchored_order (payload_base ids) (spec_floats ids ds) = [-3; 0; 1; -1; 2; -2]%Z.
+Proof. exact ids_view_former_witness. Qed.
+Print Assumptions C07_ids_view_former_witness.
 
 (* signed and 'ins_N' renderings agree whenever the mapping is built from the ids of the
    dimension's own subtotals (explicit order, sort-by-value, payload order without
